@@ -21,6 +21,7 @@ func init() {
 		return (f["set-update"] > 0 || f["set-new"] > 0) && (f["for-multi"] > 0 || f["macro-call"] > 0 || f["for-empty"] > 0)
 	})
 	p.Run = func(c *Ctx) {
+		runScale(c, sub, "C07")
 		cfg := gen.Cfg{ExprDepth: 2, BodyLen: 4, Nest: 4, Calls: true, Probe: true, If: true, For: true, Set: true, SetCap: true, Macros: true, Collide: true, LoopMeta: true}
 		sub.Rapid(c, c.Share(c.Pick(25000, 1000000)), progGen(cfg))
 	}
